@@ -14,7 +14,8 @@ THEOREMS = ["C04_read_resolution_rule", "C04_read_resolution_one_scope", "C04_wr
             "C04_assignment_in_function_is_local", "C04_fresh_slot_is_distinct", "C04_top_level_assign_is_global",
             "C04_builtin_call_changes_no_global", "C04_assignment_from_call_binds_only_its_target",
             "C04_compiled_call_restores_the_caller", "C04_user_call_changes_nothing", "C04_parameter_is_the_argument",
-            "C04_definition_binds_only_its_name"]
+            "C04_definition_binds_only_its_name", "C04_any_call_changes_no_global",
+            "C04_call_in_a_session_changes_no_global"]
 
 POOL = ["a", "b", "c", "x", "y"]
 COUNTER = [0]
